@@ -636,7 +636,33 @@ impl Exec for GuestExec {
                 self.mem = Some(Mem::Custom(CMem { regions }));
             } else {
                 let nz = NonZeroUsize::new(p).expect("harness: p");
+                if line["a"]["via"].as_str() == Some("ranges") {
+                    // the convenience constructor: ranges (and backing files) in, map out; the bitmap gets the host page size
+                    assert_eq!(p, 4096, "harness: from_ranges_with_files implies the host page size");
+                    let mut specs = Vec::new();
+                    for (idx, &(st, n)) in lay.iter().enumerate() {
+                        let file = if be == "mmapfile" {
+                            let path = std::env::temp_dir().join(format!("vmh-guest-{}-{}", std::process::id(), idx));
+                            let f = std::fs::OpenOptions::new().read(true).write(true).create(true).truncate(true).open(&path).expect("harness: file");
+                            f.set_len(n + 4096).expect("harness: set_len");
+                            self.files.push(path);
+                            Some(FileOffset::from_arc(Arc::new(f), 4096))
+                        } else {
+                            None
+                        };
+                        specs.push((GuestAddress(st), n as usize, file));
+                    }
+                    let m = GuestMemoryMmap::<AtomicBitmap>::from_ranges_with_files(specs).expect("harness: from_ranges_with_files");
+                    for r in m.iter() {
+                        for i in 0..r.len() as usize {
+                            unsafe { *r.as_ptr().add(i) = (i % 251 + 1) as u8 };
+                        }
+                    }
+                    self.mem = Some(Mem::Mmap(m));
+                    return event(line, json!({"k": "ok"}), self.state());
+                }
                 let mut regions = Vec::new();
+                let mut shrunk = false;
                 for (idx, &(st, n)) in lay.iter().enumerate() {
                     let file = if be == "mmapfile" {
                         let path = std::env::temp_dir().join(format!("vmh-guest-{}-{}", std::process::id(), idx));
@@ -647,11 +673,23 @@ impl Exec for GuestExec {
                     } else {
                         None
                     };
-                    let mr = make_region(n as usize, nz, file, st);
+                    // a region ending exactly at 2^64 is refused by the crate: it is then built one byte shorter (and the
+                    // orchestrator is told); a tree that accepts it keeps it
+                    let mut n = n;
+                    let mr = make_region(n as usize, nz, file.clone(), st);
+                    let reg = match GuestRegionMmap::new(mr, GuestAddress(st)) {
+                        Ok(r) => r,
+                        Err(_) if st.checked_add(n).is_none() && n >= 2 => {
+                            n -= 1;
+                            shrunk = true;
+                            GuestRegionMmap::new(make_region(n as usize, nz, file, st), GuestAddress(st)).expect("harness: GuestRegionMmap::new")
+                        }
+                        Err(_) => panic!("harness: GuestRegionMmap::new"),
+                    };
                     for i in 0..n as usize {
-                        unsafe { *mr.as_ptr().add(i) = (i % 251 + 1) as u8 };
+                        unsafe { *reg.as_ptr().add(i) = (i % 251 + 1) as u8 };
                     }
-                    regions.push(GuestRegionMmap::new(mr, GuestAddress(st)).expect("harness: GuestRegionMmap::new"));
+                    regions.push(reg);
                 }
                 // the collection under test may be reached through insert_region / remove_region instead of from_regions
                 let via = line["a"]["via"].as_str().unwrap_or("direct");
@@ -671,6 +709,9 @@ impl Exec for GuestExec {
                     GuestMemoryMmap::from_regions(regions).expect("harness: from_regions")
                 };
                 self.mem = Some(Mem::Mmap(m));
+                if shrunk {
+                    return event(line, json!({"k": "ok", "shrunk": true}), self.state());
+                }
             }
             return event(line, json!({"k": "ok"}), self.state());
         }
